@@ -9,34 +9,7 @@ From Coq Require Import String.
 From Coq Require Import List ZArith NArith Bool Arith Lia.
 Import ListNotations.
 Require Import PyLib PyRe Str Rx RxFacts RxSub RxComplete G_juniper JunModel JunProofs G_fn_jun RefJun RefJunEnc.
-
-Section V.
-Variable s : list chr.
-Notation slen := (length s).
-
-Lemma ms_seq_in a b i c q : In q (ms s (Seq a b) i c) <-> exists p, In p (ms s a i c) /\ In q (ms s b (fst p) (snd p)).
-Proof. cbn [ms]. apply in_flat_map. Qed.
-Lemma ms_chr_in cs i c p : In p (ms s (Chr cs) i c) -> exists x, nth_error s i = Some x /\ in_cset x cs = true /\ p = (S i, c).
-Proof. cbn [ms]. destruct (nth_error s i) as [x|]; [|intros []]. destruct (in_cset x cs) eqn:E; [|intros []]. intros [<-|[]]. eauto. Qed.
-
-Lemma mandc_chr_ge g cs : forall lo hi i c j c', In (j,c') (mandc s g (Chr cs) lo hi i c) -> i + lo <= j.
-Proof.
-  induction lo as [|lo IH]; intros hi i c j c' H.
-  - rewrite <- (ms_rep s g (Chr cs) 0 hi) in H. apply ms_mono in H. lia.
-  - cbn [mandc] in H. apply in_flat_map in H as (p & Hp & Hq). apply ms_chr_in in Hp as (x & _ & _ & ->). cbn [fst snd] in Hq. apply IH in Hq. lia.
-Qed.
-
-Lemma repn_then_eos_head cs : forall lo i c, i + lo <= slen -> all_from s cs i ->
-  exists rest, flat_map (fun p => ms s Eos (fst p) (snd p)) (mandc s true (Chr cs) lo None i c) = (slen, c) :: rest.
-Proof.
-  induction lo as [|lo IH]; intros i c Hi Hall.
-  - cbn [mandc]. destruct (optc_class_greedy_head s cs (slen - i) (S slen) i c eq_refl ltac:(lia) ltac:(lia) Hall) as (rest & ->).
-    cbn [flat_map fst snd ms]. unfold Rx.slen. rewrite Nat.eqb_refl. cbn [app]. eauto.
-  - cbn [mandc ms option_map]. destruct (nth_error s i) as [x|] eqn:E; [|apply nth_error_None in E; lia].
-    rewrite (Hall i x (le_n _) E). cbn [flat_map fst snd]. rewrite app_nil_r.
-    apply IH; [lia|]. intros j y Hj Hy. apply (Hall j y); [lia|exact Hy].
-Qed.
-End V.
+Require Export RefStr.
 
 Lemma cs0_only x : in_cset x cs0 = true -> x = 36%N.
 Proof. unfold in_cset, cs0. cbn [existsb fst snd xorb orb]. intro H. destruct (N.leb_spec 36 x), (N.leb_spec x 36); cbn in H; try discriminate; lia. Qed.
@@ -108,30 +81,6 @@ Proof.
     apply match_then_valid in M. congruence.
 Qed.
 
-Lemma py_len_vstr s : py_len (vstr s) = Normal (VInt (Z.of_nat (length s))).
-Proof. unfold vstr. cbn [py_len]. now rewrite map_length. Qed.
-
-Lemma clamp_nat n k d : clamp n (Some (Z.of_nat k)) d = Nat.min k n.
-Proof. assert (E : (Z.of_nat k <? 0)%Z = false) by (apply Z.ltb_ge; lia). unfold clamp. cbv zeta. rewrite !E. destruct (Z.ltb_spec (Z.of_nat n) (Z.of_nat k)); lia. Qed.
-Lemma slice_from {A} (l : list A) k : slice l (Some (Z.of_nat k)) None = skipn k l.
-Proof.
-  unfold slice. cbv zeta. rewrite clamp_nat. cbn [clamp].
-  destruct (Nat.le_gt_cases k (length l)).
-  - rewrite Nat.min_l by lia. rewrite <- skipn_length. apply firstn_all.
-  - rewrite Nat.min_r by lia. rewrite Nat.sub_diag. cbn [firstn]. symmetry. apply skipn_all2. lia.
-Qed.
-Lemma slice_to {A} (l : list A) k : slice l None (Some (Z.of_nat k)) = firstn k l.
-Proof.
-  unfold slice. cbv zeta. rewrite clamp_nat. cbn [clamp skipn]. rewrite Nat.sub_0_r.
-  destruct (Nat.le_gt_cases k (length l)).
-  - now rewrite Nat.min_l by lia.
-  - rewrite Nat.min_r by lia. rewrite firstn_all. symmetry. apply firstn_all2. lia.
-Qed.
-Lemma py_slice_from s k : py_slice (vstr s) (VInt (Z.of_nat k)) VNone = Normal (vstr (skipn k s)).
-Proof. unfold py_slice, vstr. cbn [optZ bind]. rewrite slice_from. now rewrite skipn_map. Qed.
-Lemma py_slice_to s k : py_slice (vstr s) VNone (VInt (Z.of_nat k)) = Normal (vstr (firstn k s)).
-Proof. unfold py_slice, vstr. cbn [optZ bind]. rewrite slice_to. now rewrite firstn_map. Qed.
-
 Lemma nibble_spec pc fuel chars k :
   gen__nibble pc fuel (vstr chars) (VInt (Z.of_nat k)) = Normal (VTuple [vstr (firstn k chars); vstr (skipn k chars)]).
 Proof. unfold gen__nibble. rewrite py_slice_to. cbn [bind]. rewrite py_slice_from. reflexivity. Qed.
@@ -184,8 +133,6 @@ Qed.
 Definition T11 : Type := (pyval * pyval * pyval * pyval * pyval * pyval * pyval * pyval * pyval * pyval * pyval)%type.
 Definition gapz (ip ic : N) : Z := ((Z.of_N ic - Z.of_N ip + Z.of_N alen) mod Z.of_N alen - 1)%Z.
 
-Lemma forallb_firstn {A} (f : A -> bool) k l : forallb f l = true -> forallb f (firstn k l) = true.
-Proof. rewrite !forallb_forall. intros H x Hx. apply H. eapply in_firstn'; eauto. Qed.
 Lemma forallb_skipn {A} (f : A -> bool) k l : forallb f l = true -> forallb f (skipn k l) = true.
 Proof. rewrite !forallb_forall. intros H x Hx. apply H. eapply in_skipn'; eauto. Qed.
 
@@ -262,27 +209,8 @@ Proof.
     + destruct Hb as (m & Eb). rewrite Eb. eauto.
 Qed.
 
-Lemma to_of_N s : map Z.to_N (map Z.of_N s) = s.
-Proof. induction s as [|x s IH]; cbn [map]; [reflexivity|]. now rewrite N2Z.id, IH. Qed.
 Lemma re_search_valid crypt : re_search_ast RX_VALID (vstr crypt) = Normal (if valid crypt then VBool true else VNone).
 Proof. unfold re_search_ast, vstr. rewrite to_of_N. rewrite <- search_valid. destruct (search crypt RX_VALID); reflexivity. Qed.
-
-Lemma py_getitem_vstr_nat (l : str) (k : nat) c : nth_error l k = Some c -> py_getitem (vstr l) (VInt (Z.of_nat k)) = Normal (vch c).
-Proof.
-  intro H. assert (Hk : (k < length l)%nat) by (apply nth_error_Some; congruence).
-  unfold py_getitem, vstr, norm_idx. rewrite map_length. cbv zeta.
-  replace (Z.of_nat k <? 0)%Z with false by (symmetry; apply Z.ltb_ge; lia).
-  replace ((Z.of_nat k <? 0)%Z || (Z.of_nat (length l) <=? Z.of_nat k)%Z) with false by (symmetry; apply orb_false_intro; [apply Z.ltb_ge|apply Z.leb_gt]; lia).
-  rewrite Nat2Z.id, nth_error_map, H. reflexivity.
-Qed.
-Lemma combine_map_r {A B C} (g : B -> C) (a : list A) (b : list B) : combine a (map g b) = map (fun p => (fst p, g (snd p))) (combine a b).
-Proof. revert b; induction a as [|x a IH]; intros [|y b]; cbn [combine map fst snd]; try reflexivity. now rewrite IH. Qed.
-Lemma py_enumerate_vstr (l : str) :
-  py_enumerate (vstr l) = Normal (VList (map (fun p => VTuple [VInt (Z.of_nat (fst p)); vch (snd p)]) (combine (seq 0 (length l)) l))).
-Proof.
-  unfold py_enumerate, vstr. cbn [py_iter bind]. rewrite map_map, map_length. change (fun x : N => VStr [Z.of_N x]) with vch.
-  rewrite combine_map_r, map_map. cbn [fst snd]. reflexivity.
-Qed.
 
 Theorem gen_decrypt_refines pc fuel crypt : (length crypt < fuel)%nat ->
   match decrypt crypt with
@@ -348,3 +276,4 @@ Proof.
   destruct (encrypt_decrypt_roundtrip plain salt Hb) as (crypt' & Ee' & _ & Hd). rewrite Ee in Ee'. injection Ee' as <-.
   exists crypt. split; [exact Eg|]. intro Hf. pose proof (gen_decrypt_refines pc fuel' crypt Hf) as R. rewrite (Hd Hne) in R. exact R.
 Qed.
+
